@@ -74,6 +74,20 @@ impl Property for C08 {
                 }
             }
         }
+        for (t, n) in dense_lengths(tier) {
+            if !sh.mine() {
+                continue;
+            }
+            let a = dense_value(n);
+            for i in [1usize, n / 2, n - 1] {
+                if !f(C08Case::Split { a: Operand::canon(t, a.clone()), i, consume: n % 4 < 2 }) {
+                    return;
+                }
+            }
+            if !f(C08Case::CopyRange { a: Operand::canon(t, a.clone()), s: 1, e: n - 1 }) {
+                return;
+            }
+        }
         for t in [TID_D, TID_A] {
             for n in [1343usize, 4096, 4097, 5000, 8200] {
                 if !sh.mine() {
